@@ -188,15 +188,21 @@ func (z *Int) SetUint64(v uint64) *Int {
 	return z
 }
 
+// Add sets z to a + b mod m. bigmod requires both operands to have the announced
+// length of the modulus: values created from small integers (NewInt, SetUint) are
+// shorter and are expanded first, otherwise only their low limbs take part.
 func (z *Int) Add(a, b *Int, mod *compatiblemod.Mod) *Int {
-	z.Set(a)
-	z.Int.Add(&b.Int, &mod.Modulus)
+	x := bigmod.NewNat().Set(&a.Int).ExpandFor(&mod.Modulus)
+	y := bigmod.NewNat().Set(&b.Int).ExpandFor(&mod.Modulus)
+	z.Int = *x.Add(y, &mod.Modulus)
 	return z
 }
 
+// Sub sets z to a - b mod m (operands are expanded as in Add).
 func (z *Int) Sub(a, b *Int, mod *compatiblemod.Mod) *Int {
-	z.Set(a)
-	z.Int.Sub(&b.Int, &mod.Modulus)
+	x := bigmod.NewNat().Set(&a.Int).ExpandFor(&mod.Modulus)
+	y := bigmod.NewNat().Set(&b.Int).ExpandFor(&mod.Modulus)
+	z.Int = *x.Sub(y, &mod.Modulus)
 	return z
 }
 
